@@ -25,7 +25,7 @@ CHECKS: dict = {
         "category": "model_checking",
         "text": "TLC proves the pruning theorem PruneSound on the complete small domain of (file value multiset incl. NULL/NaN, operator, literal / literal set, two-column conjunctions); the exported decision table is then executed case by case, concretised with boundary values for every column type, against the real bound computation, the real manifest bound round trip and the real prune_files_by_bounds, and end-to-end (real tables scanned with pruning and with pruning replaced by the identity). Right level: the decision is a pure function over an order, so a small ordered domain with in-between literals covers every comparison outcome.",
         "design_ref": "DESIGN.md 6/C13",
-        "note": "Trusted: TLC, pyarrow's min/max and filter kernels (their NULL/NaN behaviour is mirrored in Filter.tla and re-checked by the differential), the order-preserving concretisation in harness/values.py. Bounded: files of <= 3 rows (quick: 2), 9 literal positions, 9 column types.",
+        "note": "Trusted: TLC, pyarrow's min/max and filter kernels (their NULL/NaN behaviour is mirrored in Filter.tla and re-checked by the differential), the order-preserving concretisation in harness/values.py. Bounded: files of <= 3 rows (quick: 2), 9 literal positions, 9 column types plus long strings sharing a 16-character prefix. Cross-type literals (decimal doubles on 32-bit float columns, datetime on date columns and vice versa) are compared pruned vs. unpruned only (no reference oracle; where the unpruned engine refuses the literal there is no answer to preserve).",
         "technique": "TLA+ function spec (Filter.tla) model-checked by TLC; TLC-exported decision table replayed into the real code (differential + end-to-end pruned vs unpruned scans)",
     },
 }
@@ -42,15 +42,15 @@ CHECKS["C02"] = {
     "category": "model_checking",
     "text": "TLC explores every interleaving of a reader's steps (pointer resolution, manifest list, manifests, data files, return) with writers performing multi-file transactions, deletes (manifest rewrites), multi-operation transactions and shared-handle commits, checking ReadIsSnapshot (what a read returns is the file set of one snapshot that was current between its start and its end) and ReadsMonotone (per handle, never backwards). Binding: the same scenarios run on the real library under the deterministic scheduler with every read API (scan, parallel scan, batch and record iteration, row_count, filtered/projected scan, checksum verification on/off); TLC validates each recorded trace against the same actions, requiring the rows an API returned to be exactly the files the model says that read observed.",
     "design_ref": "DESIGN.md 6/C02",
-    "note": "Trusted: as C01. Bounded: 1-2 readers x 1-2 writers, <=2 operations each. pandas APIs not exercised (pandas absent). Pool workers of parallel scans are attributed to their reader, not individually scheduled. GC is not an actor here (C05/C06).",
+    "note": "Trusted: as C01. Bounded: 1-2 readers x 1-2 writers, <=2 operations each. pandas APIs not exercised (pandas absent). Pool workers of parallel scans are attributed to their reader, not individually scheduled. GC is not an actor here (C05/C06). A transient storage error is injected at every step of a read while the writer is paused at every step of its commit (RFault): the read must raise, never answer from a fallback.",
     "technique": "TLA+ protocol spec with reader actors model-checked by TLC (with action-coverage anti-vacuity); trace validation of real scheduled executions of every read API",
 }
 
 CHECKS["C04"] = {
     "category": "model_checking",
-    "text": "TLC explores the protocol model with a Fault action enabled at every step of append / delete / expire / delete-snapshot commits (exception before effect; effect-then-exception at the object-storage pointer write; asynchronous KeyboardInterrupt/SystemExit at every boundary), single and double faults, context-manager and explicit call styles, local / CAS / non-CAS backends, checking ReachablePresent, AckedOnce (ok => reflected once, error => not at all, ambiguous/interrupted => at most once), NoDeleteOnAmbiguous, Serializable. Binding: on the real library every scheduling point of every operation kind is failed once (OSError before effect, KeyboardInterrupt, SystemExit), alone and with a racing committer; TLC validates each trace against the same actions, so the error path the code takes (what it deletes, keeps and reports) must be the model's, and every invariant is evaluated after every event including the follow-up commit.",
+    "text": "TLC explores the protocol model with a Fault action enabled at every step of append / delete / expire / delete-snapshot commits (exception before effect; effect-then-exception at the object-storage pointer write; asynchronous KeyboardInterrupt/SystemExit at every boundary), single and double faults, context-manager and explicit call styles, local / CAS / non-CAS backends, checking ReachablePresent, AckedOnce (ok => reflected once, error => not at all, ambiguous/interrupted => at most once), NoDeleteOnAmbiguous, Serializable. Binding: on the real library every scheduling point of every operation kind is failed once (OSError before effect, KeyboardInterrupt, SystemExit; on the in-memory S3 also a botocore ClientError and the landed-but-errored metadata / pointer PUT; on the local backend a failing fsync of the temp file and of its directory inside every atomic write and the parquet publish), alone and with a racing committer; TLC validates each trace against the same actions, so the error path the code takes (what it deletes, keeps and reports) must be the model's, and every invariant is evaluated after every event including the follow-up commit.",
     "design_ref": "DESIGN.md 6/C04",
-    "note": "Trusted: as C01. Asynchronous exceptions are delivered at scheduling points only. After-effect faults are placed at the pointer write only (model and in-memory S3 binding); elsewhere they are equivalent to a failure of the next request. Lock-release failures are modelled as swallowed. Bounded: one victim operation + follow-up, budget <=2 faults.",
+    "note": "Trusted: as C01. Asynchronous exceptions are delivered at scheduling points only. After-effect faults are placed at the metadata write and the pointer write (model and in-memory S3 binding) and at fsyncs (local); elsewhere they are equivalent to a failure of the next request. A swallowed failure of a FILE flush, or an effect-then-raise on the local backend, is rejected by the trace specification. Lock-release failures are modelled as swallowed. Bounded: one victim operation + follow-up, budget <=2 faults.",
     "technique": "TLA+ protocol spec with fault actions model-checked by TLC; trace validation of real executions with a fault injected at every scheduling point",
 }
 
@@ -64,17 +64,17 @@ CHECKS["C03"] = _e("model_checking",
     "Trusted: TLC, the call interception in the child (wraps os/tempfile/fcntl entry points), the independent reader. Process crash only (power loss is C16). A crash between publishing v0 and writing the pointer during create is counted as POST via the effective pointer (documented).",
     "TLA+ filesystem/protocol spec with Crash actions model-checked by TLC; real crashes at every intercepted call replayed and their step logs validated as traces")
 CHECKS["C05"] = _e("model_checking",
-    "Three spec-backed parts. NormalizePath.tla: TLC enumerates every table-location string up to length 3/4 over {/ . d a t m e x} plus named spellings and proves that listed and referenced forms of every internal file get the same comparison key and distinct files stay distinct; the exported table is compared with the real key functions on the whole domain. History.tla: all sequential histories up to a bound over appends, deletes, expiries, snapshot deletions, open/rolled-back/committed transactions, failed commits, collect(grace in {0, default, large}) and clock ticks, with GCKeepsReachable / GCRemovesOldOrphans / RetainedImmutable checked by TLC; every history is replayed on the real library under a virtual clock for each table-location spelling class (absolute, trailing slash, relative, ./x, d, data, m, metadata, data2, symlinked root) with the independent reader comparing deletions against reachable and in-flight sets after every step. DataShard.tla collector: real collection runs with an open transaction paused at many points validated as traces (only deletes the model's rule allows; every eligible orphan must go).",
+    "Three spec-backed parts. NormalizePath.tla: TLC enumerates every table-location string up to length 3/4 over {/ . d a t m e x} plus named spellings and proves that listed and referenced forms of every internal file get the same comparison key and distinct files stay distinct; the exported table is compared with the real key functions on the whole domain. History.tla: all sequential histories up to a bound over appends, deletes, expiries, snapshot deletions, open/rolled-back/committed transactions, failed commits, collect(grace in {0, default, large}) and clock ticks, with GCKeepsReachable / GCRemovesOldOrphans / RetainedImmutable checked by TLC; every history is replayed on the real library under a virtual clock for each table-location spelling class (absolute, trailing slash, relative, ./x, d, data, m, metadata, data2, symlinked root) with the independent reader comparing deletions against reachable and in-flight sets after every step. DataShard.tla collector: real collection runs (incl. survivors of a partial delete after expiry, reachable only through a rewritten manifest) with an open transaction paused at many points validated as traces (only deletes the model's rule allows; every eligible orphan must go).",
     "DESIGN.md 6/C05; notes/C17.md part 2; notes/C15.md",
     "Trusted: TLC, virtual clock patches, independent reader. Spellings that need a table at the filesystem root (/data, /d) are covered at function level only. S3 prefixes share the key functions (listing semantics: C20).",
     "TLA+ specs (NormalizePath, History, DataShard collector) model-checked by TLC; TLC-generated histories replayed per location spelling; collector traces validated")
 CHECKS["C06"] = _e("model_checking",
     "DataShard.tla with a collector actor (one action per storage call of collect()) racing committers; file ages are explicit (data files written before the run may be older than any grace period; files written during the run are younger - the proviso). TLC explores all interleavings with an appending, deleting, expiring committer (thorough: two committers with retry, committer faults) checking ReachablePresent in every state, OnlyOrphansDeleted, InflightPresent; the pre-repair read order (metadata before markers) must fail. Binding: the same races on the real library (back-dated data files), every single-pause schedule in both directions plus seeded double-pause/random ones, each trace validated by TLC against the same actions.",
     "DESIGN.md 6/C06",
-    "Trusted: as C01. One collector at a time; proviso grace > run duration (real runs: grace 1 s virtual, data files back-dated 10 s).",
+    "Trusted: as C01. One collector at a time; proviso grace > run duration (real runs: grace 1 s virtual, data files back-dated 10 s). Open known finding: files appended through the file-level API (Table.append_data(files), built beforehand) carry no in-flight marker and can be collected between the commit's existence check and the pointer flip (model: QueuePrebuilt, must-fail companion; reproduced on the real code each run).",
     "TLA+ protocol spec with collector model-checked by TLC; trace validation of real scheduled collector/committer races")
 CHECKS["C07"] = _e("model_checking",
-    "DataShard.tla collector failure handling (reachable list/manifest missing, unparseable or failing; metadata unreadable; marker directory unlistable; marker unreadable / unstat-able / undeletable; listing failure; listing returning a path outside the table; candidate stat/delete failure). TLC explores one (thorough: two) fault at every collector step racing an in-flight transaction, checking AbortDeletesNothing, InflightPresent, ReachablePresent, OnlyOrphansDeleted; the pre-repair handling must fail. Binding: on the real library every storage call of a collection run is failed once and every listing made to return an escaping path once, over tables with three retained snapshots, old orphans and an in-flight transaction paused at several points, plus tables whose reachable list/manifest is missing or garbage; each trace validated by TLC.",
+    "DataShard.tla collector failure handling (reachable list/manifest missing, unparseable or failing; metadata unreadable; marker directory unlistable; marker unreadable / unstat-able / undeletable; listing failure; listing returning a path outside the table; candidate stat/delete failure). TLC explores one (thorough: two) fault at every collector step racing an in-flight transaction, checking AbortDeletesNothing, InflightPresent, ReachablePresent, OnlyOrphansDeleted; the pre-repair handling must fail. Binding: on the real library every storage call of a collection run is failed once and every listing made to return an escaping path once, over tables with three retained snapshots, old orphans and an in-flight transaction paused at several points, (also stalled for longer than the grace period, so that its old manifests are protected by markers alone), plus tables whose reachable list/manifest is missing, garbage or a JSON object of the wrong shape; each trace validated by TLC.",
     "DESIGN.md 6/C07",
     "Trusted: as C01. Transient and permanent storage errors are both an exception raised by the storage call.",
     "TLA+ protocol spec with collector fault actions model-checked by TLC; trace validation of real collection runs with a fault at every storage call")
@@ -132,7 +132,7 @@ CHECKS["C18"] = _e("model_checking",
 CHECKS["C10"] = _e("model_checking",
     "DataShard.tla pointer resolution (HintedName / BestSet / CanResolve = transcription of the pointer parse, the existence check of its target and recovery by scanning: highest version, newest write time among equals), DamageHint (pointer lost / non-parsing bytes / naming a missing file incl. legacy forms / naming an older committed version) on histories that leave uncommitted metadata behind (failed and conflicting commits, local and CAS backends, a committer that dies between the metadata write and the pointer flip), followed by open/create, append and reads. TLC checks ResolveLatestCommitted, NeverReinitialised, SingleInit, Serializable, ReachablePresent; the pre-repair commit that keeps its metadata file on a clean failure must fail. Binding: on the real library a fault is injected at every scheduling point of a commit, then the pointer file is overwritten with each concrete byte string of the class grammar (empty, whitespace, non-UTF-8, BOM, NUL, upper-case hex, 7 hex digits, negative number, free text, dangling names with CRLF, legacy numbers incl. overlong, legacy names), then create_table/open, append and a scan run; every trace is validated by TLC and the independent reader's final observation must equal the model's storage.",
     "DESIGN.md 6/C10",
-    "Two open known findings (stale well-formed pointer is trusted; a never-committed metadata file left by a dead committer - or adopted in flight under a broken lock - is surfaced once the pointer is lost) are kept as must-fail model companions and reproduced on the real code each run. Pointer damage is applied while no operation is in flight. Ambiguous (possibly committed) versions are not combined with pointer damage.",
+    "Byte grammar includes non-ASCII digits and legacy numbers below the latest version; the pointer is damaged twice (damaged, committed on, lost) and tables with more than ten versions are recovered. Two open known findings (stale well-formed pointer is trusted; a never-committed metadata file left by a dead committer - or adopted in flight under a broken lock - is surfaced once the pointer is lost) are kept as must-fail model companions and reproduced on the real code each run. Pointer damage is applied while no operation is in flight. Ambiguous (possibly committed) versions are not combined with pointer damage.",
     "TLA+ protocol spec with pointer-damage actions model-checked by TLC; trace validation of real executions with byte-level pointer damage after injected commit failures")
 
 CHECKS["C19"] = _e("model_checking",
